@@ -27,13 +27,18 @@ RULE = ('E4: pack_partitions_to_parquet of a fixed 7-row / 2-input-partition poi
         'reached are counted as rejected, not as coverage. distinct = distinct (configuration, plan).')
 ASSUMPTIONS = ['faults are injected at the fsspec boundary; byte-level corruption inside pyarrow\'s writer is modelled only as act-then-raise on open',
                'synchronous Dask scheduler so that the call trace is deterministic (checked: two fault-free runs give the same trace)']
-SCOPE = {'quick': {'configs': ['ext_empty', 'dflt'], 'single_faults': 'all positions x all applicable kinds'},
-         'thorough': {'configs': ['dflt_empty', 'ext_empty', 'dflt', 'ext'], 'single_faults': 'all positions x all applicable kinds',
+SCOPE = {'quick': {'configs': ['ext_empty', 'dflt'], 'single_faults': 'all positions x all applicable kinds',
+                   'abort_points': 'config extp: every position x {OSError, FileNotFoundError} failing 3 times in a row, then the repeat'},
+         'thorough': {'configs': ['dflt_empty', 'ext_empty', 'dflt', 'ext', 'extp', 'extp_empty'], 'single_faults': 'all positions x all applicable kinds',
+                      'abort_points': 'all six configs: every position x {OSError, FileNotFoundError} failing 3 times in a row, then the repeat',
                       'fault_pairs': 'configs ext and dflt_empty: every first fault x every second fault (OSError / FileNotFoundError / stale listing) within the next 12 calls'}}
 EXHAUSTIVE = {'quick': True, 'thorough': True}
 BUDGET = {'quick': {'shards': 8, 'examples': 640, 'min_evaluations': 300},
           'thorough': {'shards': 16, 'examples': 12000, 'min_evaluations': 2000}}
-CONFIGS = {'dflt': (3, False), 'dflt_empty': (10, False), 'ext': (3, True), 'ext_empty': (10, True)}
+# (output partitions, temp-directory mode): inside the dataset (default) / outside with a {uuid} field / outside, the same
+# directories on every run ('plain': what an aborted run leaves there is still there when the call is repeated)
+CONFIGS = {'dflt': (3, False), 'dflt_empty': (10, False), 'ext': (3, True), 'ext_empty': (10, True),
+           'extp': (3, 'plain'), 'extp_empty': (10, 'plain')}
 RA = dict(stop_max_attempt_number=3)
 N = 7
 PREDICATES = {}
@@ -124,7 +129,7 @@ class _DetUUID:
 def _pack(root, cfg, fs, overwrite=False):
     import uuid
     nparts, ext = CONFIGS[cfg]
-    fmt = os.path.join(root, 'tmp', '{uuid}', 'p{partition}') if ext else None
+    fmt = None if not ext else (os.path.join(root, 'tmp', 'p{partition}') if ext == 'plain' else os.path.join(root, 'tmp', '{uuid}', 'p{partition}'))
     real = uuid.uuid4
     _RUNS[0] += 1        # names must stay unique within the process (dask-expr interns expressions by name)
     uuid.uuid4 = _DetUUID(0x5EED0000 + _RUNS[0])
@@ -244,6 +249,12 @@ def enum_tasks(tier, seed):
         # not-found or stale listing within the next WINDOW calls (the read paths are where a fallback could re-list)
         for c in range(8):
             tasks.append({'config': 'ext', 'chunk': c, 'of': 8, 'pairs': 'read-paths'})
+    # crash points: the same primitive failing three times in a row (the whole retry budget) at every position aborts the run
+    # wherever the call is retried; the repeat with overwrite=True then meets whatever the aborted run left behind (with the
+    # 'plain' external temp directories: in the very directories it is about to use)
+    for cfg in (['extp'] if tier == 'quick' else list(CONFIGS)):
+        for c in range(4):
+            tasks.append({'config': cfg, 'chunk': c, 'of': 4, 'abort': True})
     if tier == 'thorough':
         # every pair (first fault at k1, second fault within the next WINDOW calls of the faulty run): the second fault
         # lands in whatever recovery path the first one opened, including calls that never occur in a fault-free run
@@ -270,6 +281,9 @@ def run_enum_task(task):
                     for d in range(1, WINDOW + 1):
                         for kind2 in ('fnf', 'stale'):
                             plans.append([[k, kind], [k + d, kind2]])
+            elif task.get('abort'):
+                if kind in ('oserror', 'fnf'):
+                    plans.append([[k, kind + '*3']])
             elif task.get('pairs'):
                 for d in range(1, WINDOW + 1):
                     for kind2 in ('oserror', 'fnf', 'stale'):
@@ -290,7 +304,9 @@ KINDS = ['oserror', 'fnf', 'after', 'stale']
 @st.composite
 def _case(draw):
     cfg = draw(st.sampled_from(list(CONFIGS)))
-    kmax = {'dflt': 100, 'dflt_empty': 200, 'ext': 110, 'ext_empty': 210}[cfg]
+    # a little past the number of filesystem calls of the fault-free run (127 / 281 / 130 / 291 at the time of writing;
+    # a position that is never reached is counted as not-fired)
+    kmax = {'dflt': 135, 'dflt_empty': 290, 'ext': 138, 'ext_empty': 300, 'extp': 138, 'extp_empty': 300}[cfg]
     mode = draw(st.sampled_from(['pair', 'pair', 'triple', 'sticky', 'sticky']))
     if mode == 'sticky':
         r = draw(st.integers(2, 3))
